@@ -3,7 +3,7 @@
 Universe: a fixed document family (7 operations: shared path items, a `$ref`'d path item, operations without tags /
 operationId, a deprecated one, links by operationId and operationRef, a parameter behind `$ref`).
   * ``filters_enum``  bounded exhaustive enumeration of filter sets (<=1 include and <=1 exclude in the quick tier,
-                      <=2 and <=2 in the thorough tier) over 30 atoms (path/method/name/tag/operation-id by value, list,
+                      <=2 and <=2 in the thorough tier) over 32 atoms (path/method/name/tag/operation-id by value, list,
                       regex; conjunctions; function filters; expression filters incl. a pointer that crosses a `$ref`;
                       deprecated), applied step by step through the public API (``schema.include(...).exclude(...)``);
                       every *intermediate* schema is re-checked at the end (derived schemas must not affect their parents),
@@ -125,6 +125,8 @@ ATOMS = [
     [A("path", "value", "/v2/shared")], [A("name", "regex", "^GET /shared$")],
     # patterns that match the empty string: an operation that lacks the attribute still does not match
     [A("operation_id", "regex", "^(?!get)")], [A("tag", "regex", ".*")],
+    # methods in the spelling of the document (lower case) and mixed
+    [A("method", "value", "get")], [A("method", "list", ["delete", "Post"])],
 ]
 FUNCS = dict(selection.FUNCS)
 FUNCS["path_has_b"] = lambda op: "d" in op["path"]  # "/orders", "/shared"
@@ -461,11 +463,11 @@ SUBS = [
     Sub("pytest", collect=True, fn=check_pytest, strategy=pytest_case, quick=(8, 3), thorough=(16, 60), shrink_quick=False, timeout_quick=600, timeout_thorough=3400),
 ]
 FLOOR = {"filters_enum": 1000, "engine": 20, "pytest": 40}
-BOUNDS = {"filters_enum": "30 atoms; quick: all sets with <=1 include and <=1 exclude (both orders sampled), all 2+0 and 0+2; thorough adds all 2+1, 1+2 and a quarter of 2+2 sets; each applied step by step through schema.include/exclude with every intermediate schema re-checked, plus the FilterArguments.into() route where expressible"}
+BOUNDS = {"filters_enum": "32 atoms; quick: all sets with <=1 include and <=1 exclude (both orders sampled), all 2+0 and 0+2; thorough adds all 2+1, 1+2 and a quarter of 2+2 sets; each applied step by step through schema.include/exclude with every intermediate schema re-checked, plus the FilterArguments.into() route where expressible"}
 
 MANIFEST = {
     "category": "exploration",
     "technique": "bounded exhaustive enumeration of filter sets against a reference selection model (in-memory observations) + Hypothesis-sampled engine runs against a recording loopback API + Hypothesis-sampled filter sets executed through real pytest parametrisation / lazy fixtures",
-    "text": "All filter sets up to the stated bound over 30 atoms of every documented kind are applied through the public include/exclude API (re-checking every intermediate schema afterwards) and through the CLI's FilterArguments; offered operations, statistic 'selected / total' counts for operations and links, and state-machine transitions are compared with an independent selection model evaluated on the plain document. Sampled filter sets are additionally run through the real engine (all phases, 1-2 workers) against a loopback API: no request may reach a documented but unselected operation, every selected operation has a scenario in every unit phase, stateful cases stay inside the selection. Sampled filter sets are also executed by a real pytest subprocess through schema.parametrize() and schemathesis.pytest.from_fixture() (filters on the lazy schema, inside the fixture, or split): the test body must run for exactly the selected operations.",
+    "text": "All filter sets up to the stated bound over 32 atoms of every documented kind are applied through the public include/exclude API (re-checking every intermediate schema afterwards) and through the CLI's FilterArguments; offered operations, statistic 'selected / total' counts for operations and links, and state-machine transitions are compared with an independent selection model evaluated on the plain document. Sampled filter sets are additionally run through the real engine (all phases, 1-2 workers) against a loopback API: no request may reach a documented but unselected operation, every selected operation has a scenario in every unit phase, stateful cases stay inside the selection. Sampled filter sets are also executed by a real pytest subprocess through schema.parametrize() and schemathesis.pytest.from_fixture() (filters on the lazy schema, inside the fixture, or split): the test body must run for exactly the selected operations.",
     "note": "The document family is fixed; engine and pytest observations are sampled.",
 }
